@@ -443,6 +443,11 @@ for _k, _t in _ADDENDA3.items():
     PROPS[_k]["level_text"] += " " + _t
 
 _ADDENDA4 = {
+    "C01": "Fourth round: punctuation sweep - every pair of routes of depth <=2 over {a, a-b, a.b, a_b, :p} with a punctuated name (all shapes and orders), every triple of depth <=1.",
+    "C03": "Fourth round: phase 4 - payload sizes 0..300001 (buffer and 64 KiB boundaries +-1) x text/payload/html x the connection's answers per write (all, Pending once, at most 65536/4096/1000/7/1 bytes) x GET/HEAD x three prefixes; the by-name API with the name of a standard header (set/append/remove) in the operation alphabet.",
+    "C10": "Fourth round: two closed target types (deny_unknown_fields): a body with an undeclared part must be refused.",
+    "C14": "Fourth round: preflights with their CORS header names in lower / upper / first-letter-upper case; inner-guard trees (a guarded application mounted under /a, routes below /a declared on the root and by a third application, a guard local to one handler): the every-response clauses hold on the guard's refusal, on 404 and on 200, in every registration order.",
+    "C15": "Fourth round: a JWT fang with a custom token source (documented as an apiKey scheme), used through a clone, at root / child / local; requests built from the document answer apiKey schemes.",
     "C06": "Fourth round: eight pipelined bursts (3-16 requests, 1.2-2.9 KiB, heads of 150/300/470/1000 bytes, one mixed with bodies): every 1-cut, 2-cuts on a grid.",
     "C09": "Fourth round: histories of two on one thread - after each of three serializations refused half-way the value must be written as before, after each of four refused texts the text must be read as before.",
     "C12": "Fourth round: compositions (Context fang of the payload type before the JWT fang, outer JWT reading another header + inner JWT, sibling mounts with different secrets incl. one a prefix of the other, the same fang on parent and child) x a token menu with cross-forged tokens x all histories of length <=2 (quick) / <=3 (thorough); witnesses carry the last rightly admitted request.",
